@@ -42,6 +42,7 @@ func (e *Encoder) EncodeString(tag int, s string) {
 func (e *Encoder) EncodeBytes(tag int, v []byte) {
 	e.offset += EncodeTag(e.p[e.offset:], tag, WireTypeLengthDelimited)
 	e.offset += EncodeVarint(e.p[e.offset:], uint64(len(v)))
+	verifCopy(e, len(v))
 	copy(e.p[e.offset:], v)
 	e.offset += len(v)
 }
@@ -351,6 +352,7 @@ func (e *Encoder) EncodeNested(tag int, m interface{}) error {
 		if err != nil {
 			return err
 		}
+		verifCopy(e, len(buf))
 		copy(e.p[e.offset:], buf)
 		e.offset += sz
 		return nil
@@ -359,6 +361,7 @@ func (e *Encoder) EncodeNested(tag int, m interface{}) error {
 		if err != nil {
 			return err
 		}
+		verifCopy(e, len(buf))
 		copy(e.p[e.offset:], buf)
 		e.offset += sz
 		return nil
@@ -368,6 +371,7 @@ func (e *Encoder) EncodeNested(tag int, m interface{}) error {
 // EncodeRaw writes the raw bytes of d into the buffer at the current offset
 func (e *Encoder) EncodeRaw(d []byte) {
 	if l := len(d); l > 0 {
+		verifCopy(e, l)
 		copy(e.p[e.offset:], d)
 		e.offset += l
 	}
